@@ -107,6 +107,14 @@ def invalid_documents(rng, ir, base_text):
     if obj is not None:
         add("output-type-in-input-position", "extend type %s { zzOut(a: %s): Int }" % (q.name, obj.name))
         add("object-as-input-field", "input ZzBadInput { a: %s }\nextend type %s { zzBI(x: ZzBadInput): Int }" % (obj.name, q.name))
+    # the same mistakes with a default value attached (the default must not be evaluated against a type that
+    # cannot be an input type), and defaults that name fields the input type does not have
+    if obj is not None:
+        add("output-type-in-input-position-with-default", "extend type %s { zzOutD(a: %s = {}): Int }" % (q.name, obj.name))
+    add("query-type-in-input-position-with-default", "extend type %s { zzOutQ(a: %s = {}): Int }" % (q.name, q.name))
+    add("unknown-field-in-default-literal", "input ZzKnown { a: Int }\nextend type %s { zzUF(x: ZzKnown = {a: 1, zzz: 2}): Int }" % q.name)
+    add("extension-of-undefined-type", "extend type ZzNowhereDefined { b: Int }")
+    add("extension-of-specified-scalar-as-object", "extend type String { b: Int }")
     add("empty-object-type", "type ZzEmpty\nextend type %s { zzEmpty: ZzEmpty }" % q.name)
     add("empty-enum", "enum ZzEmptyEnum\nextend type %s { zzEE: ZzEmptyEnum }" % q.name)
     add("empty-union", "union ZzEmptyUnion\nextend type %s { zzEU: ZzEmptyUnion }" % q.name)
